@@ -801,6 +801,25 @@ def witness_b2():
     return {'cf': w['cf'], 'ops': [(('StartApps',), 1000)]}
 
 
+def witness_c():
+    """ finding c04-non-distributed-no-recheck: SINGLE_INSTANCE application {p1 seq 1 load 40, p2 seq 2 load 40}
+    validated at before() on instance 1 (node at 10: 10 + 80 <= 100). While its first group starts, another
+    application gets a process of load 20 started on instance 3 of the same node. When the second group is reached the
+    node carries 10 + 40 + 20 = 70 and the request for p2 (40) is sent without any check: 110 """
+    cf = {'now': 1000, 'insts': base_insts({1, 3}), 'nodes': [(1, [1, 3, 5]), (2, [2, 4, 6])], 'stereotypes': [],
+          'ballast': [(1, 10)],
+          'apps': [{'name': 1, 'managed': True, 'start': 1, 'strategy': 0, 'dist': 1, 'rule': [0],
+                    'procs': [proc_cf(1, 40, 1), proc_cf(2, 40, 2)]},
+                   {'name': 2, 'managed': True, 'start': 1, 'strategy': 0, 'dist': 0, 'rule': [0],
+                    'procs': [proc_cf(1, 20, 1, rule=[3])]}]}
+    return {'cf': cf, 'ops': [(('StartAppD', 0, 1), 1000), (('Next',), 1000),
+                              (('StartProcD', 0, 2, 1), 1000), (('Next',), 1000),
+                              (('Event', 3, 2, 1, 'STARTING', True, 1001), 1001),
+                              (('Event', 3, 2, 1, 'RUNNING', True, 1002), 1002),
+                              (('Event', 1, 1, 1, 'STARTING', True, 1003), 1003),
+                              (('Event', 1, 1, 1, 'RUNNING', True, 1004), 1004)]}
+
+
 def witness_a_sibling():
     """ variant of A: the on-demand program is requested first in the same SINGLE_INSTANCE job; the instance was
     validated for the start-sequence load (20) on a node at 70, the job carries 18 + 20: the request of the
@@ -869,7 +888,8 @@ class EligibilitySuite(Suite):
     evals = {'mismatches': 'mismatches', 'spec_violations': 'spec_violations',
              'known:c04-single-instance-on-demand-load': 'known_single_instance_on_demand',
              'known:c04-cross-application-pending-load': 'known_cross_application',
-             'known:c03-noresource-reentrancy': 'known_noresource_reentrancy'}
+             'known:c03-noresource-reentrancy': 'known_noresource_reentrancy',
+             'known:c04-non-distributed-no-recheck': 'known_nondistributed_no_recheck'}
     shard_size = 50
     quick_cases = 600
     thorough_cases = 12000
@@ -880,7 +900,7 @@ class EligibilitySuite(Suite):
                 for _ in range(n)]
 
     def corpus(self):
-        out = [witness_a(), witness_b(), witness_b2(), witness_a_sibling(), witness_reentrancy(),
+        out = [witness_a(), witness_b(), witness_b2(), witness_a_sibling(), witness_c(), witness_reentrancy(),
                witness_added_disabled(2), witness_added_disabled(1)]
         path = os.path.join(os.path.dirname(__file__), 'corpus', 'eligibility.json')
         if os.path.exists(path):
